@@ -142,7 +142,7 @@ type run struct {
 
 // maxEvents bounds one run's trace: a CP that never goes idle (e.g. one that keeps sending) is cut off;
 // the prefix recorded so far is still validated.
-const maxEvents = 20000
+const maxEvents = 200000
 
 func (r *run) emit(e string, f ab.Rec) {
 	r.nev++
@@ -294,8 +294,8 @@ func newRun(rec *ab.Recorder, sc *Scenario, emu bool) *run {
 			}
 		case *protocol.LaunchKernelRsp:
 			kid := 0
-			if k, ok := r.byReqID[m.RspTo]; ok {
-				kid = k.id
+			if k, ok := r.byReqID[m.RspTo]; ok && m.Dst == k.req.Src && m.Src == k.req.Dst {
+				kid = k.id // (a response that does not travel back to the requester answers no launch: k = 0)
 			}
 			switch ctx.Pos {
 			case sim.HookPosPortMsgSend:
@@ -349,9 +349,15 @@ func (r *run) onMapSent(m *protocol.MapWGReq) {
 		r.byWG[[2]int{kid, w}] = mi
 	}
 	locs := [][]int{}
-	aligned := 1
-	for _, l := range m.Wavefronts {
+	aligned := 1 // offsets are whole registers and location i carries wavefront i of the work-group
+	if m.WorkGroup == nil || len(m.Wavefronts) != len(m.WorkGroup.Wavefronts) {
+		aligned = 0
+	}
+	for i, l := range m.Wavefronts {
 		if l.SGPROffset%4 != 0 || l.VGPROffset%4 != 0 {
+			aligned = 0
+		}
+		if aligned == 1 && l.Wavefront != m.WorkGroup.Wavefronts[i] {
 			aligned = 0
 		}
 		locs = append(locs, []int{l.SIMDID, l.SGPROffset / 4, l.VGPROffset / 4, l.LDSOffset})
@@ -888,6 +894,48 @@ func (r *run) random(rng *rand.Rand, nlaunch int, xbatch bool) {
 	}
 }
 
+// big: a few overlapping kernels of hundreds of work-groups on many CUs; the CUs finish work-groups in
+// random order, a random fraction per cycle.
+func (r *run) big(rng *rand.Rand) {
+	n := 2 + rng.Intn(3)
+	for i := 0; i < n; i++ {
+		var d KDesc
+		for {
+			nwf := pick(rng, 1, 2, 4, 4, 8, 16)
+			d = KDesc{WG: [3]int{64 * nwf, 1, 1}, S: pick(rng, 16, 32, 48, 100), V: pick(rng, 8, 16, 32, 64, 128),
+				L: pick(rng, 0, 1024, 8192, 32768), PID: 1 + rng.Intn(3)}
+			d.Grid = [3]int{d.WG[0] * pick(rng, 100, 300, 700, 1500), 1, 1}
+			if fitsIdle(r.cfg[0], d, nwf) { // a work-group no CU can ever hold would wait forever
+				break
+			}
+		}
+		r.launch(d)
+		r.tick(rng.Intn(4))
+	}
+	for steps := 0; steps < 200000 && !r.dead && !r.allAnswered(); steps++ {
+		for r.takeMap() {
+		}
+		for c := range r.resident {
+			for len(r.resident[c]) > 0 && rng.Intn(3) == 0 {
+				res := r.resident[c]
+				first := res[rng.Intn(len(res))]
+				which := []*mapInfo{first}
+				if rng.Intn(4) == 0 {
+					for _, x := range res {
+						if x != first && x.k == first.k && rng.Intn(2) == 0 {
+							which = append(which, x)
+						}
+					}
+				}
+				r.complete(c, which)
+			}
+		}
+		for r.takeRsp() {
+		}
+		r.tick(1)
+	}
+}
+
 func main() {
 	scen := flag.String("scen", "", "scenario file (JSON list)")
 	out := flag.String("out", "trace.ndjson", "trace output")
@@ -896,6 +944,7 @@ func main() {
 	seed := flag.Int64("seed", 1, "seed")
 	xbatch := flag.Int("xbatch", 0, "every n-th random run lets CUs batch completions of different kernels (0 = never)")
 	nemu := flag.Int("emu", 0, "number of runs with real emulation CUs")
+	nbig := flag.Int("big", 0, "number of runs with 16-64 CUs of the shipped shape and kernels of hundreds of work-groups")
 	algs := flag.String("alg", "", "comma-separated placement algorithms the random runs rotate through (needs the verif hook)")
 	flag.BoolVar(&verbose, "v", false, "debugging: log scenario steps into the trace (such a trace is not validated)")
 	flag.Parse()
@@ -969,6 +1018,15 @@ func main() {
 		}
 		r := begin(sc, false)
 		r.random(rng, 1+rng.Intn(*nl), *xbatch > 0 && i%*xbatch == *xbatch-1)
+		end(r, sc.Probe)
+	}
+	for i := 0; i < *nbig; i++ {
+		sc := &Scenario{NDisp: pick(rng, 2, 4, 8), Overhead: [3]int{rng.Intn(3), rng.Intn(3), 1 + rng.Intn(3)}, Probe: true}
+		for j, n := 0, pick(rng, 16, 32, 64); j < n; j++ {
+			sc.CUs = append(sc.CUs, CUCfg{Slots: []int{10, 10, 10, 10}, SRegs: 3200, VRegs: []int{256, 256, 256, 256}, LDS: 65536})
+		}
+		r := begin(sc, false)
+		r.big(rng)
 		end(r, sc.Probe)
 	}
 	for i := 0; i < *nemu; i++ {
